@@ -7,6 +7,9 @@ props = [json.loads(l) for l in open(os.path.join(ROOT, 'properties.jsonl'))]
 
 # id -> (technique, level text, level note, design ref)
 CHECKS = {
+ 'C05': ('runtime monitor over generated histories: naive Merkle-forest reference model fed from the diff stream + client-store proof checker after every apply/revert; exhaustive small-shape enumerator',
+         'Real blocks are validated/applied/reverted on generated chains (5 network families, random reorg schedules up to whole-chain depth) and on a signature-free enumerator network (every leaf count up to a bound, every subset of spent leaves x added-leaf counts for small accumulators - exhaustive for that sub-space); after each step the accumulator roots, leaf count, ForEachTreeNode output and every proof the client store maintains via UpdateElementProof (live elements of all kinds, chain indices, proofs of spent outputs) are compared with a forest rebuilt naively from all leaves. Held on the observed executions only.',
+         'Trusted: x/crypto blake2b, element hashes derived with the public types.Hasher (their layout is C11\'s subject), the harness store model (applies updates in order).', '§5 C05'),
  'C15': ('runtime differential monitor: math/big oracle over boundary-grid cross product + per-bit-length random operands; text/JSON round-trip monitor',
          'Every Currency operation is executed on the full cross product of a boundary grid (exhaustive for that grid), on random operands of every bit-length pair and on divisor-directed cases, each execution watched by a math/big oracle that also predicts the overflow/underflow/zero-division report; every text form is parsed back and compared. Held-on-observed executions, not a proof.',
          'Trusted: math/big, the harness. Wrapped results after overflow are unspecified and not judged.', '§5 C15'),
